@@ -158,7 +158,12 @@ def c08(run):
     if not quick:
         rt_family(run, "reg_3x1", "reg", 3, 1)
     rt_random(run, "rand_reg", "reg", 400 if quick else 30000)
-    return run.finish(rule=RT_RULE, extra_assumptions=RT_ASSUME)
+    # the router-level rules (unknown method, same method twice for a path - through Routes lists with "*", Any, Combo):
+    # random registration programs, panic / no panic and every request validated against the flat expansion
+    rg_random(run, 300 if quick else 20000, label="rg_router_level")
+    return run.finish(rule=RT_RULE + " Router-level rejection (unknown method, a method registered twice for one path through "
+                      "Routes lists incl. \"*\", Any, Combo) is validated on random registration programs by RegistrarTrace.",
+                      extra_assumptions=RT_ASSUME)
 
 
 def c09(run):
@@ -305,6 +310,15 @@ def rg_cfg(maxlen, maxdepth, dev=(), emit=True):
             "INVARIANT ExecIsFlatten\nCONSTRAINT EmitCase\nCHECK_DEADLOCK FALSE\n")
 
 
+def rg_random(run, n, label="rg_random"):
+    gen = os.path.join(run.work, label + ".jsonl")
+    with open(gen, "w") as fo:
+        p = run.hrun(["registrar", "gen", run.seed, n], stdout=fo)
+    if p.returncode != 0:
+        raise Infra("registrar gen failed: " + p.stderr[-2000:])
+    return run.conformance(label, "registrar", gen, "RegistrarTrace", TRACE_CFG % "", chunk_events=20000)
+
+
 def c11(run):
     quick = run.tier == "quick"
     run.build_harness()
@@ -312,12 +326,7 @@ def c11(run):
     r = run.model_check("Registrar", rg_cfg(4 if quick else 5, 2), name="RG_gen", want_cases=True, heap="24g")
     cf = vlib.subsample(r["cases_file"], 6000 if quick else 150000, run.seed, run)
     run.conformance("rg_programs", "registrar", cf, "RegistrarTrace", TRACE_CFG % "", chunk_events=20000)
-    gen = os.path.join(run.work, "rg_rand.jsonl")
-    with open(gen, "w") as fo:
-        p = run.hrun(["registrar", "gen", run.seed, 500 if quick else 30000], stdout=fo)
-    if p.returncode != 0:
-        raise Infra("registrar gen failed: " + p.stderr[-2000:])
-    run.conformance("rg_random", "registrar", gen, "RegistrarTrace", TRACE_CFG % "", chunk_events=20000)
+    rg_random(run, 500 if quick else 30000)
     return run.finish(
         rule="TLC enumerates every well-bracketed registration program up to the length bound (groups with 0..1 handlers nested up to "
              "depth 2, Routes with one/two methods, Any, Get, Combo with 1-2 calls incl. a repeated method, AutoHead on/off) and checks "
@@ -372,7 +381,7 @@ def c05(run):
     run.build_harness()
     race_bin = run.build_harness(race=True)
     run.fatal_race_is_violation = True
-    for d in ("SHAREDSLICE", "NOONCE", "SHAREDRENDER", "SHAREDSRC"):
+    for d in ("SHAREDSLICE", "NOONCE", "SHAREDRENDER", "SHAREDSRC", "SHAREDPARAMS"):
         run.tlc("Concurrent", cc_cfg(2, dev=[d], emit=False, view=True), name="CC_neg_" + d, expect_violation="ReadOnlyAfterSetup")
     # all interleavings of the model; the behaviours are emitted with their schedule of gate steps
     r = run.model_check("Concurrent", cc_cfg(2 if quick else 3), name="CC_gen", want_cases=True, heap="24g")
